@@ -23,10 +23,10 @@ type Line struct {
 	E    int     `json:"e,omitempty"`
 	D    int     `json:"d,omitempty"`
 	// not read by the spec
-	Marker  bool      `json:"marker,omitempty"`
-	Stray   []string  `json:"stray,omitempty"`
-	Conc    *Concrete `json:"conc,omitempty"`
-	Panic   string    `json:"panic,omitempty"`
+	Marker bool      `json:"marker,omitempty"`
+	Stray  []string  `json:"stray,omitempty"`
+	Conc   *Concrete `json:"conc,omitempty"`
+	Panic  string    `json:"panic,omitempty"`
 }
 
 // step sends one request with the given concrete cookie value ("" = none) and
